@@ -40,6 +40,20 @@ Theorem C19_sink_table_obligations :
 Proof. exact (conj translator_ok (conj sinks_exclusions_tight online_flag_writes)). Qed.
 Print Assumptions C19_sink_table_obligations.
 
+(* ctx forwarding, over the regenerated table of every call of a helper whose ctx parameter
+   has a default (DEFAULT_CTX is an OFFLINE context): from a function that has a ctx in
+   scope, a helper that can reach a mode decision always gets it explicitly -- except the
+   call sites listed and justified in Model/Online.v (ctx_exclusions) *)
+Theorem C19_ctx_forwarding : forall c, In c ctx_calls -> c_has_ctx c = true -> c_risky c = true ->
+  ctx_listed c = false -> c_passes c = true.
+Proof. exact ctx_forwarded. Qed.
+Print Assumptions C19_ctx_forwarding.
+
+Theorem C19_ctx_table_obligations :
+  forallb ctx_ok ctx_calls = true /\ ctx_exclusions_tight ctx_calls = true.
+Proof. exact (conj ctx_calls_swept ctx_exclusions_are_tight). Qed.
+Print Assumptions C19_ctx_table_obligations.
+
 (* the modelled functions, online: no host print, no eval / exec of user text in any trace
    of execute_vyxal (input parsing, body made of prints, E, dagger, E-dot, error capture,
    implicit output under its own try) *)
@@ -66,6 +80,11 @@ Theorem C19_model_eval : forall m t, online m = true ->
   (vy_eval_result m t = RUnchanged <-> is_literal t = false).
 Proof. exact vy_eval_online. Qed.
 Print Assumptions C19_model_eval.
+
+(* ... and it never raises, in either mode: a text is a value or stays the string it is *)
+Theorem C19_model_eval_total : forall m t, vy_eval_result m t <> RRaises.
+Proof. exact vy_eval_total. Qed.
+Print Assumptions C19_model_eval_total.
 
 (* the call element on a string does nothing online; E-dot runs the text as Vyxal only *)
 Theorem C19_model_call : forall m k, online m = true -> function_call_trace m k = [].
